@@ -300,7 +300,10 @@ func c10Body(c *ev.Ctx) {
 			if err != nil {
 				c.HarnessError("prove (%s): %v", mode, err)
 			}
-			if js, e := json.Marshal(pr); e == nil {
+			if co, e := proofCoords(pr.Proof); e == nil {
+				// rendered by the harness (not by the repository's encoder) for the re-randomisation below
+				hx := func(x *big.Int) string { return "0x" + x.Text(16) }
+				js, _ := json.Marshal(map[string]any{"ar": []string{hx(co[0]), hx(co[1])}, "bs": [][]string{{hx(co[2]), hx(co[3])}, {hx(co[4]), hx(co[5])}}, "krs": []string{hx(co[6]), hx(co[7])}})
 				lastReal[mode], lastHash[mode] = js, hash
 			}
 			var buf bytes.Buffer
